@@ -21,7 +21,11 @@ THEOREMS = ['C20_sem_extensional_body', 'C20_sem_extensional_code', 'C20_sem_ext
             'C20_exception_passthrough_variadic', 'C20_engine_with_exceptions_refines', 'C20_exception_provenance',
             'C20_exception_unchanged', 'C20_plain_is_machine', 'C20_rows_related', 'C20_native_equals_compiled_facts_rel',
             'C20_native_equals_compiled_facts_renaming', 'C20_ground_rows_special_case', 'C20_native_equals_compiled_facts_same_answer_refuted',
-            'C20_subset_interchangeable_rel', 'C20_subset_interchangeable_renaming']
+            'C20_subset_interchangeable_rel', 'C20_subset_interchangeable_renaming',
+            'C20_chain_engine_refines', 'C20_chain_is_concatenation', 'C20_chain_of_two', 'C20_chain_members_interchangeable',
+            'C20_chain_member_python_vs_compiled', 'C20_mixed_sources_interchangeable', 'C20_python_then_script_is_one_definition',
+            'C20_chained_python_predicate_is_first_clauses', 'C20_chain_engine_monotone', 'C20_exception_passthrough_chain_member',
+            'C20_exception_at_the_chain']
 IMPORTS = ['Lang.Ast', 'Sem.Machine', 'Sem.RunSem', 'Sem.Native', 'Sem.RunNative', 'Sem.NativeChain', 'Sem.RunNativeChain']
 CASE_TIMEOUT = 30
 COQ_CHUNK = 12
